@@ -104,3 +104,19 @@ def get_selfies_from_index(index: int):
     variant("while index", index)
     use_lemma("while index", pow16_pos(len(symbols)))
     use_lemma("while index", div_div16(old(index), pow16(len(symbols))))
+
+
+# documented symbol tables (CHANGELOG v2.0.0 / derivation.rst): branch symbols [<bond>Branch<L>] -> (order, L);
+# ring symbols [<bond>Ring<L>] -> (order, L, (None, None)) and two-character stereo ring symbols [<l><r>Ring<L>]
+BRANCH_DOC = {'[Branch1]': (1, 1), '[=Branch1]': (2, 1), '[#Branch1]': (3, 1), '[Branch2]': (1, 2), '[=Branch2]': (2, 2), '[#Branch2]': (3, 2), '[Branch3]': (1, 3), '[=Branch3]': (2, 3), '[#Branch3]': (3, 3)}
+RING_DOC = {'[Ring1]': (1, 1, (None, None)), '[=Ring1]': (2, 1, (None, None)), '[#Ring1]': (3, 1, (None, None)), '[-/Ring1]': (1, 1, (None, '/')), '[-\\Ring1]': (1, 1, (None, '\\')), '[/-Ring1]': (1, 1, ('/', None)), '[//Ring1]': (1, 1, ('/', '/')), '[/\\Ring1]': (1, 1, ('/', '\\')), '[\\-Ring1]': (1, 1, ('\\', None)), '[\\/Ring1]': (1, 1, ('\\', '/')), '[\\\\Ring1]': (1, 1, ('\\', '\\')), '[Ring2]': (1, 2, (None, None)), '[=Ring2]': (2, 2, (None, None)), '[#Ring2]': (3, 2, (None, None)), '[-/Ring2]': (1, 2, (None, '/')), '[-\\Ring2]': (1, 2, (None, '\\')), '[/-Ring2]': (1, 2, ('/', None)), '[//Ring2]': (1, 2, ('/', '/')), '[/\\Ring2]': (1, 2, ('/', '\\')), '[\\-Ring2]': (1, 2, ('\\', None)), '[\\/Ring2]': (1, 2, ('\\', '/')), '[\\\\Ring2]': (1, 2, ('\\', '\\')), '[Ring3]': (1, 3, (None, None)), '[=Ring3]': (2, 3, (None, None)), '[#Ring3]': (3, 3, (None, None)), '[-/Ring3]': (1, 3, (None, '/')), '[-\\Ring3]': (1, 3, (None, '\\')), '[/-Ring3]': (1, 3, ('/', None)), '[//Ring3]': (1, 3, ('/', '/')), '[/\\Ring3]': (1, 3, ('/', '\\')), '[\\-Ring3]': (1, 3, ('\\', None)), '[\\/Ring3]': (1, 3, ('\\', '/')), '[\\\\Ring3]': (1, 3, ('\\', '\\'))}
+
+
+@contract("selfies/grammar_rules.py::process_branch_symbol", props=["C02", "C08", "C18"])
+def process_branch_symbol(symbol: str):
+    ensures(result == (BRANCH_DOC[symbol] if symbol in BRANCH_DOC else None), tag="C02:branch-symbol-table")
+
+
+@contract("selfies/grammar_rules.py::process_ring_symbol", props=["C02", "C04", "C08", "C18"])
+def process_ring_symbol(symbol: str):
+    ensures(result == (RING_DOC[symbol] if symbol in RING_DOC else None), tag="C02,C04:ring-symbol-table")
